@@ -457,14 +457,23 @@ class Generator:
                 l = fl[k]
                 var = src[l['pat'][0]:l['pat'][1]].decode().strip()
                 itxt = src[l['iter'][0]:l['iter'][1]].decode().strip()
+                rev = False
+                m_rev = re.fullmatch(r'([\w.]+)\s*\.\s*iter\(\)\s*\.\s*rev\(\)', itxt)
+                if m_rev:
+                    # `for x in E.iter().rev()`: the elements last to first
+                    rev, itxt = True, m_rev.group(1)
                 if not re.fullmatch(r'\w+', var) or not re.fullmatch(r'&?[\w.]+', itxt):
-                    raise GenError(f'unsupported: RFORS needs `for <ident> in <path>` in {u.fnpath}')
+                    raise GenError(f'unsupported: RFORS needs `for <ident> in <path>` (or `<path>.iter().rev()`) in {u.fnpath}')
                 if src[l['body'][0]:l['body'][0] + 1] != b'{':
                     raise GenError(f'unsupported: for-loop body of {u.fnpath} is not a block')
-                add_edit(l['span'][0], l['body'][0], f'{{ let mut {var}__n: usize = 0; while {var}__n < ({itxt}).len() ', 'RFORS')
-                deref_bodies[l['body'][0] + 1] = f' let {var} = &({itxt})[{var}__n]; {var}__n += 1;'
+                if rev:
+                    add_edit(l['span'][0], l['body'][0], f'{{ let mut {var}__n: usize = ({itxt}).len(); while {var}__n > 0 ', 'RFORS')
+                    deref_bodies[l['body'][0] + 1] = f' {var}__n -= 1; let {var} = &({itxt})[{var}__n];'
+                else:
+                    add_edit(l['span'][0], l['body'][0], f'{{ let mut {var}__n: usize = 0; while {var}__n < ({itxt}).len() ', 'RFORS')
+                    deref_bodies[l['body'][0] + 1] = f' let {var} = &({itxt})[{var}__n]; {var}__n += 1;'
                 add_edit(l['body'][1], l['body'][1], ' }', 'RFORS')
-                applied.append(f'RFORS loop#{k}: for {var} in {itxt} -> indexed while with leading increment')
+                applied.append(f'RFORS loop#{k}: for {var} in {itxt}{".iter().rev()" if rev else ""} -> indexed while with the step first')
             elif kind == 'RDEREF':
                 # `for &x in E { B }` -> `for x__r in E { let x = *x__r; B }` (the reference pattern of a Copy item spelled out;
                 # Verus does not take `&` patterns in `for`)
